@@ -565,6 +565,15 @@ def check_determinism(case, ctx):
         model, u, w, maxL, ev = run_mt(case, h, global_seed=case["seed"] + 7919 * run)
         out.append((np.array(u, copy=True), np.array(w, copy=True), float(maxL),
                     model.train_info["loglik"].tolist()))
+    # the second model fitted once more with the same seed argument
+    with threadpoolctl.threadpool_limits(limits=1):
+        u3, w3, l3 = model.fit(h, K=case["K"], seed=case["seed"], normalizeU=case["normalizeU"],
+                               baseline_r0=case["baseline_r0"])
+    require(np.array_equal(np.asarray(u3), out[1][0]) and np.array_equal(np.asarray(w3), out[1][1])
+            and float(l3) == out[1][2],
+            lambda: "the same HypergraphMT object fitted twice with seed %d returns different "
+            "results (log-likelihoods %r and %r)" % (case["seed"], out[1][2], float(l3)),
+            key="refit-differs")
     (u1, w1, l1, t1), (u2, w2, l2, t2) = out
     require(u1.shape == u2.shape and np.array_equal(u1, u2),
             lambda: "two fits with seed %d on fresh objects (global RNG states differ) return different u:\n%r\n%r"
@@ -592,8 +601,16 @@ def check_hysc(case, ctx):
         rows = rows_of(h, nodes)
         seed_globals(case["seed"] + 7919 * run)
         with threadpoolctl.threadpool_limits(limits=1):
-            m = np.asarray(HySC(seed=case["seed"]).fit(h, K=K, weighted_L=case["weighted_L"]))
+            model = HySC(seed=case["seed"])
+            m = np.asarray(model.fit(h, K=K, weighted_L=case["weighted_L"]))
+            if run == 1:
+                # the same object fitted once more: "run twice with the same seed" also means
+                # this (the seed is a constructor argument)
+                m_again = np.array(model.fit(h, K=K, weighted_L=case["weighted_L"]), copy=True)
         outs.append(np.array(m, copy=True))
+    require(np.array_equal(outs[1], m_again),
+            lambda: "the same HySC object (seed %d) fitted twice returns different matrices:\n%r\n%r"
+            % (case["seed"], outs[1].tolist(), m_again.tolist()), key="hysc-refit-determinism")
     m = outs[0]
     require(m.shape == (N, K), lambda: "HySC.fit returns shape %r, expected (N, K) = %r"
             % (m.shape, (N, K)), key="hysc-shape")
